@@ -4,6 +4,7 @@ import (
 	"fmt"
 	"go/constant"
 	"go/token"
+	"go/types"
 	"strings"
 
 	"golang.org/x/tools/go/ssa"
@@ -93,7 +94,7 @@ func runC14(c *report.Ctx) {
 								}
 								dst = "dst[" + lo + ":]"
 							}
-							c.Fail(sk(f)+":copy("+dst+",k.key)", "the private scalar is copied at a fixed offset: a scalar shorter than 32 bytes (leading zeros stripped by big.Int.Bytes) is left-aligned and the HMAC input is wrong (BIP-32 test vector 4)", posOf(c, r))
+							c.Fail(sk(apiOwner(p, f))+":copy("+dst+",k.key)", "the private scalar is copied at a fixed offset: a scalar shorter than 32 bytes (leading zeros stripped by big.Int.Bytes) is left-aligned and the HMAC input is wrong (BIP-32 test vector 4)", posOf(c, r))
 							continue
 						}
 					}
@@ -194,20 +195,32 @@ func runC14(c *report.Ctx) {
 	if child != nil {
 		// data = make([]byte, 33+4); index written at data[33:]
 		ok := false
-		an.Instrs(child, func(in ssa.Instruction) {
-			if ms, isMS := in.(*ssa.MakeSlice); isMS {
-				if n, isK := constInt(ms.Len); isK && n == 37 {
-					ok = true
-				}
-				if b, isB := ms.Len.(*ssa.BinOp); isB && b.Op == token.ADD {
-					x, okx := constInt(b.X)
-					y, oky := constInt(b.Y)
-					if okx && oky && x+y == 37 {
-						ok = true
+		for _, cf := range reachIn(p, child, pkgHD) {
+			if cf != child && len(calls(child, cf)) == 0 {
+				continue // Child itself and the helpers it calls directly
+			}
+			an.Instrs(cf, func(in ssa.Instruction) {
+				if al, isAl := in.(*ssa.Alloc); isAl && al.Comment == "makeslice" {
+					if pt, isP := al.Type().Underlying().(*types.Pointer); isP {
+						if at, isA := pt.Elem().Underlying().(*types.Array); isA && at.Len() == 37 {
+							ok = true
+						}
 					}
 				}
-			}
-		})
+				if ms, isMS := in.(*ssa.MakeSlice); isMS {
+					if n, isK := constInt(ms.Len); isK && n == 37 {
+						ok = true
+					}
+					if b, isB := ms.Len.(*ssa.BinOp); isB && b.Op == token.ADD {
+						x, okx := constInt(b.X)
+						y, oky := constInt(b.Y)
+						if okx && oky && x+y == 37 {
+							ok = true
+						}
+					}
+				}
+			})
+		}
 		if ok {
 			c.OK(sk(child)+":hmac-input-len", "33-byte key + 4-byte index", p.Pos(child.Pos()))
 		} else {
